@@ -6,7 +6,7 @@ from bounded.common import quiet
 ELS = ['C', 'N', 'O', 'H', 'Zr']
 
 
-def mk(n, terms=True, coeffs=True, extra=True, cell='ortho', seed=0, labels=True, typed=None, kinds=None, xrev=False, long=False, unused=None):
+def mk(n, terms=True, coeffs=True, extra=True, cell='ortho', seed=0, labels=True, typed=None, kinds=None, xrev=False, long=False, unused=None, dup=False):
     """Structure with n atoms (n <= 6), a fixed pool of terms restricted to existing atoms, type tables."""
     from mofun import Atoms
     rnd = random.Random(seed * 7919 + n)
@@ -36,8 +36,13 @@ def mk(n, terms=True, coeffs=True, extra=True, cell='ortho', seed=0, labels=True
             ts = [t for t in pool if max(t) < n]
             if not ts or (kinds is not None and name not in kinds):
                 continue
+            if dup:
+                # the same atoms listed twice with different types (multi-term torsions, a bond defined twice): rows are not keys
+                ts = ts + [ts[0]]
             kw[plural] = ts
             kw[name + '_types'] = [(i + seed) % nt for i in range(len(ts))]
+            if dup and nt > 1 and kw[name + '_types'][-1] == kw[name + '_types'][0]:
+                kw[name + '_types'][-1] = (kw[name + '_types'][0] + 1) % nt
             if coeffs:
                 kw[name + '_type_coeffs'] = ["%s_style %d.5 # %s%d%s" % (name, i + 1, name[0].upper(), i, "  a much longer coefficient comment" if long else "") for i in range(nt + (1 if unused else 0))]
             if extra:
